@@ -31,6 +31,8 @@ def untag(v, k=0):
 
 def _build(level, parent):
     spec = CHAIN[level - 1]
+    if spec["kind"] == "pass" and parent is not None:
+        return parent            # the function hands on, unchanged, the partition another function returned
     if spec["kind"] == "disk":
         p = OnDiskPartition()
         for k in spec["own"]:
